@@ -18,6 +18,20 @@ ASSUMPTIONS = [
     "gsmtime part: tied to the current tree by differential execution of the unchanged sched_gsmtime.c + tdma_sched.c (host build; the call to tdma_schedule_set goes through a recording wrapper of the harness; every history in a fresh process image) on structured random and boundary histories: pool exhaustion, equal fn's, out-of-order insertion (every sequence over 3 frame numbers up to length 4), too-close and past frames, resets, long runs, the hyperframe wrap and the uint32_t wrap; ARRAY_SIZE(sched_gsmtime_events), SCHEDULE_AHEAD, SCHEDULE_LATENCY, EBUSY, GSM_MAX_FN and the field widths are regenerated from the compiler's view of the file on every run and used by the theorems (gen_consts)",
 ]
 
+MANIFEST_TEXT = (" || gsmtime part (sched_gsmtime.c, Props/C08Gsmtime.lean): pool_invariant (active ++ inactive a permutation of the 16 slots, active "
+                 "sorted by fn; preserved by every operation and history), busy_iff (-EBUSY exactly when 16 events are pending, state unchanged), sched_accepts "
+                 "(requests for one frame keep their order), execute_fires_exactly / due_event_fires / other_event_stays (one sched_gsmtime_execute hands over "
+                 "exactly the events with fn == (uint32_t)(fn+2), once each, in order; the break never cuts off a due event; stale events block nothing), "
+                 "fires_at_first_hit / fires_exactly_once / accepted_fires_exactly_once (exactly one tdma_schedule_set(1, si, p3) call, in frame F-2), "
+                 "stale_never_fires, stale_fires_next_hyperframe, wrap_full_fails (genuine defect: events for frames 0 and 1 are never handed over across the "
+                 "hyperframe wrap) / wrap_partial (F >= 2), reset_frees_all / nothing_fires_after_reset, frames_safe, event_set_runs_at / "
+                 "event_set_runs_in_frame (composition with the TDMA scheduler: the k-th frame of the event's item set runs exactly once, in frame F-1+k, "
+                 "unless the ignored tdma_schedule_set result was -1), frame_is_history")
+MANIFEST_NOTE = (" || gsmtime part: trusted additionally gen/sched_gsmtime.py, harness/c/c08_gsmtime_harness.c (recording wrapper around tdma_schedule_set, "
+                 "fork per history); assumed: sched_gsmtime() is not re-entered from sched_gsmtime_execute(), sched_gsmtime_init() runs once, the item set an "
+                 "event points to is constant and SCHED_END_SET()-terminated; EBUSY is the host's errno value (16, as in newlib); known defect pinned by "
+                 "wrap_full_fails: F in {0,1} across GSM_MAX_FN (oracle judges such histories only up to that point until the region is a known finding or fixed)")
+
 NF = 25               # TDMA scheduler depth (property C08)
 NSLOTS = 16           # event pool the property speaks about
 AHEAD = 2             # an event for frame F is handed to the TDMA scheduler in frame F - 2 ...
@@ -205,7 +219,7 @@ class Gen:
     def gs(self, F, big=False):
         r = self.rng
         frames = r.choice([1, 1, 1, 2, 3]) if not big else r.choice([1, 2])
-        per = [0, 1, 1, 2] if not big else [3, 5, 9]
+        per = [0, 1, 1, 2] if not big else [3, 4, 8, 9]
         return ("gs", F, r.choice([0, 0, 1, 77, 65535, r.randrange(0, 65536)]), self.elems(frames, per, tail=r.random() < 0.1))
 
     def sched(self, off):
@@ -243,11 +257,16 @@ class Gen:
                         d = hot - fn
                     else:
                         d = r.choice([2, 2, 3, 3, 4, 5, 8, 13, 23, 24, 30, 60])
-                    ops.append(self.gs((fn + d) % mod, big=r.random() < 0.1))
+                    F = (fn + d) % mod
+                    if mode == "mod" and F < AHEAD and r.random() < 0.85:
+                        F = AHEAD + r.choice([0, 0, 1, 2])      # most histories stay outside the region F in {0, 1} of wrap_full_fails
+                    ops.append(self.gs(F, big=r.random() < 0.04))
                 if r.random() < burst:
                     d = r.choice([2, 3, 6, 40])
+                    spread = r.choice([1, 3, 3, 8])
                     for k in range(r.choice([NSLOTS - 1, NSLOTS, NSLOTS + 1, NSLOTS + 3])):
-                        ops.append(self.gs((fn + d + (k % 3 if r.random() < 0.5 else 0)) % mod))
+                        F = (fn + d + k % spread) % mod
+                        ops.append(self.gs(F if not (mode == "mod" and F < AHEAD) else AHEAD + 5))
                 if r.random() < tdma:
                     ops.append(self.sched(r.choice([0, 1, 2, 5, 24])))
                 if resets and r.random() < 0.04:
